@@ -119,6 +119,9 @@ struct Shape_Script : public Script {
       out.push_back(obs_cons_only(A)); if (use_tp) out.push_back(val("tokens", ZZ(tokens))); break; }
     case LIMITED: {
       int k = rnd(0, 1); std::vector<RawCon> v = any_cs(1, 3, t);
+      // A constraint without variables (e.g. `-3 == 0`) in cs makes BD_Shape::get_limiting_shape index dbm[space_dim + 1]
+      // (heap-buffer-overflow in every configuration, reported separately): keep such rows out unless asked for.
+      if (!hx::opt().geti("trivlim", 0)) { t.clear(); for (size_t i = 0; i < v.size(); ++i) { bool z = true; for (int d = 0; d < n; ++d) if (v[i].a[d]) z = false; if (z) v[i].a[rnd(0, n - 1)] = 1; t += (i ? ", " : "") + show(v[i]); } }
       static const char* const nm[2] = { "limited_CC76_extrapolation_assign", "limited_BHMZ05_extrapolation_assign" };
       ctx.begin(nm[k], ra + ".upper_bound_assign(" + rb + ");" + ra + "." + nm[k] + "(" + rb + ", {" + t + "})");
       A.upper_bound_assign(B); Constraint_System cs = cons(v, n);
@@ -157,7 +160,7 @@ struct Shape_Script : public Script {
       bool r = coin() ? (mx ? A.maximize(e, sn, sd, att, g) : A.minimize(e, sn, sd, att, g)) : (mx ? A.maximize(e, sn, sd, att) : A.minimize(e, sn, sd, att));
       out.push_back(val("bounded", r)); if (r) { out.push_back(val("opt", frac(toZ(sn), toZ(sd)))); out.push_back(val("attained", att)); }
       out.push_back(val("bounds_from_above", A.bounds_from_above(e))); out.push_back(val("bounds_from_below", A.bounds_from_below(e)));
-      Coefficient fn, fd, vn, vd; bool fr = A.frequency(e, fn, fd, vn, vd); out.push_back(val("frequency", fr)); if (fr) out.push_back(val("freq", frac(toZ(fn), toZ(fd)) + "@" + frac(toZ(vn), toZ(vd))));
+      Coefficient fn, fd, vn, vd; bool fr = A.frequency(e, fn, fd, vn, vd); out.push_back(val("frequency", fr)); if (fr) out.push_back(val("freq", frac(toZ(fn), toZ(fd)) + " at " + frac(toZ(vn), toZ(vd))));
       break; }
     case QUERY_PRED: {
       ctx.begin("predicates", ra + ".predicates()");
